@@ -34,8 +34,8 @@ Jump(l, v, dv) ==
   /\ lay' = l /\ var' = v /\ ph' = "done" /\ pos' = N(Doc) /\ dev' = dv
   /\ UNCHANGED <<d, mut>>
 
-CL == CanonLay(Doc)
-CV == CanonVar(Doc)
+CL == Doc.cl
+CV == Doc.cv
 Idx(P(_)) == {i \in 1..N(Doc) : P(Doc.toks[i])}
 IsSep(t) == t.k = "sep"
 IsLit(t) == t.k = "lit"
@@ -104,7 +104,7 @@ DocRecord(k) ==
    kind |-> [i \in 1..N(D) |-> D.toks[i].k],
    role |-> [i \in 1..N(D) |-> D.toks[i].role],
    lk |-> [i \in 1..N(D) |-> D.toks[i].lk],
-   cg |-> CanonLay(D), cv |-> CanonVar(D),
+   cg |-> D.cl, cv |-> D.cv,
    ids |-> [i \in 1..Len(D.flists) |-> ImplicitIds(D.flists[i])],
    evals |-> [i \in 1..Len(D.enums) |-> ImplicitEnumValues(D.enums[i])],
    anns |-> [i \in 1..Len(D.anns) |-> GroupAnnotations(D.anns[i])],
